@@ -1,6 +1,8 @@
 mod ctx;
 mod gen;
 mod kind;
+mod ops_ff;
+mod ops_ic;
 mod ops_prim;
 mod raw;
 mod rng;
@@ -30,6 +32,8 @@ fn main() {
     let mut c = Ctx::new(seed ^ fxhash(&group), "", size);
     match group.as_str() {
         "prim" => ops_prim::PrimOps::<VecKind>::run(&mut c, count),
+        "ff" => ops_ff::FfOps::<VecKind>::run(&mut c, count),
+        "ic" => ops_ic::IcOps::<VecKind>::run(&mut c, count),
         g => {
             eprintln!("unknown group {}", g);
             std::process::exit(2);
